@@ -343,7 +343,7 @@ def check_rest(ctx, fx, cfg):
         inst = "%s-loop@%s" % (kind, cfg)
         has_ctx = sum(1 for u in up if u.startswith("context::Context<")) == 1
         has_stop = [i for i, u in enumerate(up) if u == "context::StopNotifier"]
-        has_rx = any("futures_util::stream::poll_fn::PollFn<" in u and loops.PAYLOAD in u for u in up)
+        has_rx = len(loops.mailbox_rx_captures(fx, f)) == 1
         ctx.require(has_ctx and len(has_stop) == 1 and has_rx, "R02.2", inst, "the loop future must own context, stop notifier and the receive side of the mailbox: captures %s" % [u[:50] for u in up], fn=f["def"], site=f["loc"], detail=[u[:60] for u in up])
         co = fx.coroutines.get(f["def"], {})
         rx_atoms = [a for a in co.get("upvar_atoms", []) if own.classify(a)[0] == "receiver" and not own.existential(own.classify(a)[1])]
